@@ -27,7 +27,7 @@ LEVEL_TEXT = {
     "C01": "bounded, solver-decided: (1) SMT path enumeration (z3) of the programs the real compile pipeline produces for a "
            "corpus of patterns with choice points, lookarounds, backreferences and case-insensitivity, against an ES "
            "reference matcher, for every haystack of each enumerated shape (<= 3-4 characters, byte values symbolic); "
-           "(2) Kani/CBMC on the real executor for straight-line programs over <= 2-3 symbolic characters; (3) Kani "
+           "(2) Kani/CBMC on the real executor for a few straight-line programs over <= 2 symbolic characters; (3) Kani "
            "kernels for the real loop decision, one-character loops, backtrack records and lookaround capture effects. "
            "Not a proof: outside the corpus and the bounds nothing is claimed.",
     "C02": "Kani/CBMC kernels tie BOTH real executors' step functions (loop decision, one-character loop step, undo "
@@ -58,9 +58,9 @@ LEVEL_TEXT = {
     "C12": "Kani/CBMC on the real interval-set algebra from arbitrary well-formed pre-states and on the ASCII bracket fast "
            "path; SMT-decided comparison of compiled class expressions (legacy and v-mode, generated to depth 2 with "
            "independently computed denotations) with ES semantics for all subjects within the shapes.",
-    "C13": "Kani/CBMC: AsciiInput vs Utf8Input primitives and fold relation on all ASCII bytes; one-character loops and the "
-           "Char arm with non-byte pattern characters on AsciiInput; SMT comparison of the machine in ASCII and UTF-8 "
-           "mode on ASCII shapes with native validation against find_from_ascii.",
+    "C13": "Kani/CBMC: AsciiInput vs Utf8Input primitives and fold relation on all ASCII bytes; one-character loops with "
+           "non-byte pattern characters on AsciiInput; SMT comparison of the machine in ASCII and UTF-8 mode (optimised "
+           "and unoptimised program) on ASCII shapes with native validation against find_from_ascii.",
     "C14": "Kani/CBMC on the real Utf16Input / Ucs2Input decoders and backreference primitive for arbitrary u16 input "
            "(lone surrogates included) within the bound.",
     "C15": "the same Kani harness files are verified under the other feature sets against the same oracles; compile "
@@ -69,11 +69,15 @@ LEVEL_TEXT = {
            "the name assignments over {unnamed,a,b} incl. duplicates; group-name order of the real emitter checked on a "
            "corpus of named-group patterns.",
     "C17": "Kani/CBMC: the real template expander against a reference expander for all templates of <= 2 (quick) / 3-4 "
-           "(thorough) symbols over a 9-symbol alphabet; the real splice loops over an arbitrary deterministic engine.",
-    "C18": "Kani/CBMC: escape(s) for every string of <= 2 scalar values equals 'backslash before exactly the 14 syntax "
-           "characters'.",
-    "C20": "Kani/CBMC on the real Searcher / ReverseSearcher implementation over an arbitrary deterministic engine for all "
-           "haystacks of <= 2 characters: adjacency, coverage, boundaries, Match steps == find_iter sequence.",
+           "(thorough) symbols over a 9-symbol alphabet; the real splice loops (replace/replace_with on <= 1 character, "
+           "replace_all/replace_all_with on the empty haystack in quick; <= 1-2 characters in thorough) over an arbitrary "
+           "deterministic engine.  std String growth is replaced by a fixed-capacity model (overflow asserted).",
+    "C18": "Kani/CBMC: escape(s) for every string of <= 3 scalar values (all of Unicode) equals 'backslash before exactly "
+           "the 14 syntax characters'.  std String growth is replaced by a fixed-capacity model (overflow asserted).",
+    "C20": "Kani/CBMC on the real Searcher / ReverseSearcher implementation over an arbitrary deterministic engine: the "
+           "whole step stream until Done is adjacent, covering, on char boundaries, and the forward Match steps are the "
+           "find_iter sequence.  quick: forward <= 1 character, backward on the empty haystack; thorough: forward <= 2, "
+           "backward <= 1-2 characters.",
 }
 
 
